@@ -264,18 +264,20 @@ CHECKS['C06'] = dict(
 CHECKS['C07'] = dict(
     category='proof',
     technique='contract-based deductive verification: pyvc proof that the index invariant is preserved by the real '
-              'Entity.__setitem__ / __delitem__ code over symbolic index maps (quantified arrays, uninterpreted casefold; '
+              'Entity.__setitem__ / __delitem__ and VMF.add_ent / remove_ent code over symbolic index maps (quantified '
+              'arrays, uninterpreted casefold; '
               'z3 4.8 / 5.1 / cvc5); bounded operation histories',
     text='Invariant I - by_class / by_target, read case-insensitively with missing keys as empty sets, equal the sets '
          'computed from every entity\'s current classname / targetname - is proved to be preserved by the real '
          'Entity.__setitem__ (classname and targetname, any key spelling, entity in the map / not in the map / the '
-         'worldspawn entity, which is also proved to stay worldspawn or raise) and Entity.__delitem__, for arbitrary '
-         'symbolic index maps, other entities, old and new values. add_ent/add_ents/remove_ent, pop, clear, update, '
+         'worldspawn entity, which is also proved to stay worldspawn or raise), Entity.__delitem__, VMF.add_ent and '
+         'VMF.remove_ent (entity in the map / already removed), for arbitrary '
+         'symbolic index maps, other entities, old and new values. add_ents, pop, clear, update, '
          'setdefault, make_unique, copies across maps, parsing, search() and iteration while mutating are covered by '
          'bounded operation histories comparing the indexes with a scan after every step.',
     note='trusted: casefold as an uninterpreted idempotent function agreeing with str.casefold on the literals used, '
-         'defaultdict(CopySet) abstracted as a total map, membership in vmf.entities as a set, pyvc; vacuity covers '
-         'under quantified hypotheses are inconclusive (recorded); CopySet iteration and VMF.parse bounded-only.')
+         'defaultdict(CopySet) abstracted as a total map, membership in vmf.entities as a set (duplicates in the list '
+         'are invisible), pyvc; vacuity covers under the quantified invariant are decided with candidate witnesses; CopySet iteration and VMF.parse bounded-only.')
 CHECKS['C09'] = dict(
     category='proof',
     technique='contract-based deductive verification: coverage and freshness contracts of every copy() decided on the '
